@@ -150,7 +150,14 @@ def check_config(acc, h, cfg, layer, digest=None, with_decoys=False):
             for p in check_generated_structure(src):
                 acc.violation('C02:generated-structure:%s' % p.split(' ')[0], '%s in %s:\n%s' % (p, fname, src), case)
     used = set()
-    for what, path, method in (('route', h.path, 'GET'), ('null', '/zz', 'GET'), ('null', h.path, 'POST')):
+    reqs = [('route', h.path, 'GET', {}), ('null', '/zz/zz', 'GET', {}), ('null', h.path, 'POST', {})]
+    if cfg.get('url') and not cfg.get('url_optional'):
+        # repeated slashes in front of every segment (tolerated in redirect mode): same values
+        reqs.append(('route', h.path.replace('/', '//')[1:], 'GET', {}))
+    if h.path_absent:
+        reqs.append(('route', h.path_absent, 'GET', dict((n, None) for n in cfg['url'])))
+    for what, path, method, url_values in reqs:
+        h.url_values = url_values
         res, trace = chain.run_request(h, path, method)
         acc.transitions += 1
         if res.raised is not None:
